@@ -362,6 +362,7 @@ func (b *ReadOnly) AllKeysChan(ctx context.Context) (<-chan cid.Cid, error) {
 	// TODO we may use this walk for populating the index, and we need to be able to iterate keys in this way somewhere for index generation. In general though, when it's asked for all keys from a blockstore with an index, we should iterate through the index when possible rather than linear reads through the full car.
 	rdr, err := internalio.NewOffsetReadSeeker(b.backing, 0)
 	if err != nil {
+		b.mu.RUnlock() // don't hold the mutex forever
 		return nil, err
 	}
 	header, err := carv1.ReadHeader(rdr, b.opts.MaxAllowedHeaderSize)
